@@ -224,7 +224,7 @@ func sceneBindingMsg(op int, o BindOpts) {
 		chk("C15 C03", vf.All(defined, !present), "bind-needs-definition-and-no-duplicate")
 		chk("C03", vf.All(newDep.Equal(add), depAcc1.Sub(depAcc).Equal(add), balS.Sub(balS1).Equal(add)), "bind-moves-deposit-into-custody")
 		chk("C14 C03", vf.All(post.Available, post.DisabledTime.IsZero(), post.QoS == qos, post.Pricing == text), "bind-creates-available-binding")
-		chk("C08 C06", vf.And(qos >= 1, qos <= uint64(k.MaxRequestTimeout(ctx))), "qos-within-bounds")
+		chk("C08 C06", vf.And(qos >= 1, qos <= uint64(vf.Params(ctx).MaxRequestTimeout)), "qos-within-bounds")
 		_ = newPricing
 	case opUpdBinding:
 		chk("C03", vf.All(newDep.Equal(pre.Deposit.Add(add)), depAcc1.Sub(depAcc).Equal(add), balS.Sub(balS1).Equal(add)), "update-adds-exactly-the-sent-deposit")
@@ -241,7 +241,7 @@ func sceneBindingMsg(op int, o BindOpts) {
 		chk("C03", vf.All(newDep.Equal(pre.Deposit), depAcc1.Equal(depAcc), balS1.Equal(balS)), "disable-moves-no-money")
 		chk("C03 C04", vf.All(pre.Available, !post.Available, post.DisabledTime.Equal(now)), "disable-records-block-time")
 	case opRefund:
-		refundable := pre.DisabledTime.Add(k.ArbitrationTimeLimit(ctx)).Add(k.ComplaintRetrospect(ctx))
+		refundable := pre.DisabledTime.Add(vf.Params(ctx).ArbitrationTimeLimit).Add(vf.Params(ctx).ComplaintRetrospect)
 		chk("C03", vf.All(!pre.Available, pre.Deposit.IsPositive(), !now.Before(refundable)), "refund-only-when-unavailable-nonzero-and-due")
 		chk("C03", vf.All(newDep.IsZero(), depAcc.Sub(depAcc1).Equal(pre.Deposit), balS1.Sub(balS).Equal(pre.Deposit)), "refund-pays-whole-deposit-to-owner")
 		chk("C03 C14", vf.All(!post.Available, post.DisabledTime.Equal(pre.DisabledTime)), "refund-keeps-binding-unavailable")
